@@ -215,3 +215,162 @@ def eval_bool(e, assign, atom_of):
         if e[0] == "bin" and e[1] in ("BitOr",):
             return eval_bool(e[2], assign, atom_of) or eval_bool(e[3], assign, atom_of)
     raise TableMismatch("unrecognised result expression %s" % fmt(e))
+
+
+# ------------------------------------------------------------------------------------------------
+# Path-wise symbolic execution: locals take their value when assigned *on this path*, stores to places and
+# cells are remembered, later reads see them. Used where the flow-insensitive resolver is too coarse
+# (e.g. `self.first = x; if let Some(n) = self.first`).
+
+from .graph import E_deref, E_ref, E_field, TRANSPARENT, PURE_GETTERS
+
+
+class SymExec:
+    def __init__(self, S, path):
+        self.S = S
+        self.env = {}
+        self.mem = {}
+        self.literals = []
+        self.stores = []      # (target expr, value expr, node)
+        self.calls = []       # (node, args) for non-expanded calls
+        self.retval = None
+        self._run(path)
+
+    # -- evaluation ---------------------------------------------------------------------------
+    def local(self, ctx, l):
+        k = (ctx.id, l)
+        if k in self.env:
+            return self.env[k]
+        return self.S.resolve_local(ctx, l)
+
+    def read(self, x):
+        """Value found at place-expression x (memory first)."""
+        k = strip(x)
+        if k in self.mem:
+            return self.mem[k]
+        return x
+
+    def place(self, ctx, p, as_address=False):
+        x = self.local(ctx, p["l"])
+        n = len(p["p"])
+        for i, e in enumerate(p["p"]):
+            if e == "*":
+                x = E_deref(x)
+            elif isinstance(e, dict) and "f" in e:
+                x = E_field(x, e["n"], e["f"])
+            elif isinstance(e, dict) and "v" in e:
+                x = ("as", x, e["v"])
+            elif isinstance(e, dict) and "idx" in e:
+                x = ("index", x)
+            else:
+                x = ("proj", x, str(e))
+            last = (i == n - 1)
+            if not (as_address and last):
+                x = self.read(x) if isinstance(e, dict) and "f" in e or e == "*" else x
+        return x
+
+    def op(self, ctx, o):
+        k = o["k"]
+        if k in ("copy", "move"):
+            return self.place(ctx, o["place"])
+        return self.S.resolve_op(ctx, o)
+
+    def rv(self, ctx, r):
+        k = r["k"]
+        if k == "use":
+            return self.op(ctx, r["op"])
+        if k in ("ref", "rawptr"):
+            return E_ref(self.place(ctx, r["place"], as_address=True))
+        if k == "bin":
+            t = ("bin", r["op"], self.op(ctx, r["a"]), self.op(ctx, r["b"]))
+            return t + ("float",) if r.get("float") else t
+        if k == "un":
+            return ("un", r["op"], self.op(ctx, r["a"]))
+        if k == "cast":
+            x = self.op(ctx, r["op"])
+            return ("unsize", x, r["ty"]) if "Unsize" in r["kind"] else x
+        if k == "discr":
+            return ("discr", self.place(ctx, r["place"]))
+        if k == "agg":
+            ops = tuple(self.op(ctx, o) for o in r["ops"])
+            if r["agg"] == "closure":
+                return ("env", r["closure"], ops)
+            if r["agg"] == "adt":
+                from .facts import norm_path
+                return ("agg", "adt", norm_path(r["adt"]) + "::" + r["variant"], ops, tuple(r["fields"]))
+            return ("agg", r["agg"], r["agg"], ops, ())
+        return self.S.resolve_rv(ctx, r, None)
+
+    # -- walking ----------------------------------------------------------------------------------
+    def _run(self, path):
+        S = self.S
+        for i, (n, lab) in enumerate(path):
+            ctx = n.ctx
+            for s in n.stmts:
+                if s["k"] != "assign":
+                    continue
+                v = self.rv(ctx, s["rv"])
+                if not s["place"]["p"]:
+                    self.env[(ctx.id, s["place"]["l"])] = v
+                else:
+                    tgt = self.place(ctx, s["place"], as_address=True)
+                    self.mem[strip(tgt)] = v
+                    self.stores.append((tgt, v, n))
+            t = n.term
+            if t["k"] == "switch" and isinstance(lab, tuple):
+                e = self.op(ctx, t["op"])
+                if not (isinstance(e, tuple) and e and e[0] == "const"):
+                    for lit in normalise_literal(e, lab[1], t):
+                        self.literals.append(lit)
+            elif t["k"] == "call":
+                args = tuple(self.op(ctx, a) for a in t["args"])
+                if lab == "call" and i + 1 < len(path):
+                    sub = path[i + 1][0].ctx
+                    if sub.call_node is n and sub.via in ("call", "virtual"):
+                        for j, a in enumerate(args):
+                            if j < sub.fn.arg_count:
+                                self.env[(sub.id, j + 1)] = a
+                    elif sub.call_node is n:
+                        for l_, v_ in sub.bind.items():
+                            self.env.setdefault((sub.id, l_), v_)
+                else:
+                    ci = n.ci
+                    val = self._call_value(n, ci, args)
+                    if not t["dest"]["p"]:
+                        self.env[(ctx.id, t["dest"]["l"])] = val
+                    self.calls.append((n, args))
+            if lab == "ret" and i + 1 < len(path):
+                # returning from an expanded callee: its _0 flows into the call's destination
+                cn = ctx.call_node
+                if cn is not None and cn.term["k"] == "call":
+                    v = self.local(ctx, 0)
+                    d = cn.term["dest"]
+                    if not d["p"]:
+                        self.env[(cn.ctx.id, d["l"])] = v
+            if n.kind == "return" and n.ctx is S.root_ctx:
+                self.retval = self.local(n.ctx, 0)
+
+    def _call_value(self, n, ci, args):
+        np = ci["npath"]
+        if ci["kind"] == "std":
+            if np in TRANSPARENT or ci.get("res_npath") in TRANSPARENT:
+                return args[0] if args else ("call", np, args)
+            if np.endswith("Clone::clone") and args:
+                return args[0]
+            if np.startswith("std::cell::Cell::<T>::get"):
+                k = ("cell", strip(args[0]))
+                return self.mem.get(k, ("load", args[0]))
+            if np.startswith("std::cell::Cell::<T>::set") and len(args) > 1:
+                self.mem[("cell", strip(args[0]))] = args[1]
+                self.stores.append((args[0], args[1], n))
+                return ("const", "()")
+            if np.startswith("std::cell::Cell::<T>::replace") and len(args) > 1:
+                k = ("cell", strip(args[0]))
+                old = self.mem.get(k, ("load", args[0]))
+                self.mem[k] = args[1]
+                self.stores.append((args[0], args[1], n))
+                return old
+            return ("call", np, args)
+        if np in PURE_GETTERS:
+            return ("call", np, args)
+        return ("ret", np, args, "%s:bb%d" % (n.ctx.fn.npath, n.bb))
